@@ -263,7 +263,7 @@ def gen_case(cseed: int, tier: str) -> dict[str, Any]:
         elif kind == "wcrash":
             entry = h.choice(["string", "with_emitter"])
             writer_fail = f.choice([0, 0, 1, 2])
-        src = f"h{i}.s"
+        src = f"h{i}.s" if h.random() < 0.75 else f"hsub{i % 2}/h{i}.s"  # sometimes next to nothing else, in a sub-directory
         if kind == "same_path":
             # another program stored under the probe's own path, assembled, then replaced by the probe
             src = "probe.s"
@@ -298,6 +298,18 @@ def gen_case(cseed: int, tier: str) -> dict[str, Any]:
         if ok and not (klass == "unmapped_bank" and not pprog.unmapped_addr) and not (klass in ("run_off_mapped_rom", "address_beyond_24_bits") and "map" in pprog.features):
             pprog = progen.insert_at(pprog, f.choice(ok), error_node(klass, pprog))
             probe["fails_by"] = klass
+    if w.random() < 0.12 and pprog.mapping == "low" and not probe.get("fails_by") and "map" not in pprog.features:
+        # the probe touches the first bank of an unmapped range; a history program walks right up to
+        # (and one byte past) the end of the mapped range below it
+        bank, last = w.choice([(0x70, 0x6FFFFF), (0xD0, 0xCFFFFF)])
+        pprog = progen.insert_at(pprog, {"file": "main.s", "path": [], "pos": len(pprog.root)}, {"k": "error", "t": f"*={(bank << 16) | 0x8000:#x}\n.db 1"})
+        probe["fails_by"] = "unmapped_bank_edge"
+        probe["rom"] = "low"
+        edge_src = f"*={last:#x}\n.db 0x42\n".encode()
+        files["hedge.s"] = edge_src
+        roles["hedge.s"] = "source"
+        ops.insert(h.randrange(0, len(ops) + 1), {"op": "exec", "spec": {"entry": h.choice(["string", "patch", "cli"]), "src": "hedge.s", "rom": "low", "mapping": "low", "out": "hedge_out.ips", "format": "ips", "defines": []}, "knobs": {}, "faults": [], "kind": "edge_walk", "has_map": False, "pool": False, "mapping": "low", "insert_class": "run_off_mapped_rom"})
+        roles["hedge_out.ips"] = "out_ips"
     pf = pprog.all_files()
     pr = pprog.all_roles()
     pf["probe.s"] = pf.pop("main.s")
